@@ -261,16 +261,43 @@ func sweep(r *core.Run, alphabet []byte, maxLen int, cfgs []Cfg, label string) {
 
 // depthBombs: nesting of MaxDepth±1 in both codecs, maps and lists.
 func depthBombs(r *core.Run) {
-	for _, d := range []int{1, 2, 3, 1023, 1024, 1025, 5000} {
+	for _, d := range []int{1, 2, 3, 4, 1023, 1024, 1025, 1026, 5000} {
 		for _, md := range []int64{0, 1, 2, 3} {
 			cb := append(bytes.Repeat([]byte{0x81}, d), 0x00)
 			cm := append(bytes.Repeat([]byte{0xa1, 0x61, 0x61}, d), 0x00)
 			jl := []byte(strings.Repeat("[", d) + "1" + strings.Repeat("]", d))
 			jm := []byte(strings.Repeat(`{"a":`, d) + "1" + strings.Repeat("}", d))
-			for _, in := range []struct {
+			// maps under the reserved key and its "bytes" companion: the decoder reads these through its
+			// link/bytes lookahead, a different path to the same nesting
+			js := []byte(strings.Repeat(`{"/":`, d) + "1" + strings.Repeat("}", d))
+			jb := []byte(strings.Repeat(`{"/":{"bytes":`, (d+1)/2) + "1" + strings.Repeat("}}", (d+1)/2))
+			jsl := []byte(strings.Repeat(`[{"/":`, (d+1)/2) + "1" + strings.Repeat("}]", (d+1)/2))
+			cases := []struct {
 				c  Cfg
 				in []byte
-			}{{Cfg{Codec: "dag-cbor", MaxDepth: md, Target: "any"}, cb}, {Cfg{Codec: "dag-cbor", MaxDepth: md, Target: "any"}, cm}, {Cfg{Codec: "dag-json", MaxDepth: md, Target: "any"}, jl}, {Cfg{Codec: "dag-json", MaxDepth: md, Target: "any"}, jm}} {
+				d  int
+			}{{Cfg{Codec: "dag-cbor", MaxDepth: md, Target: "any"}, cb, d}, {Cfg{Codec: "dag-cbor", MaxDepth: md, Target: "any"}, cm, d}, {Cfg{Codec: "dag-json", MaxDepth: md, Target: "any"}, jl, d}, {Cfg{Codec: "dag-json", MaxDepth: md, Target: "any"}, jm, d},
+				{Cfg{Codec: "dag-json", MaxDepth: md, Target: "any"}, js, d}}
+			if md == 0 {
+				// (the plain json codec has no depth option: its limit is the default one)
+				cases = append(cases, struct {
+					c  Cfg
+					in []byte
+					d  int
+				}{Cfg{Codec: "json", Target: "any"}, js, d})
+			}
+			if d%2 == 0 {
+				cases = append(cases, struct {
+					c  Cfg
+					in []byte
+					d  int
+				}{Cfg{Codec: "dag-json", MaxDepth: md, Target: "any"}, jb, d}, struct {
+					c  Cfg
+					in []byte
+					d  int
+				}{Cfg{Codec: "dag-json", MaxDepth: md, Target: "any"}, jsl, d})
+			}
+			for _, in := range cases {
 				fs, outcome := CheckDecode(in.c, in.in)
 				exp := effectiveDepth(in.c)
 				if outcome == "result" && d > exp || outcome == "error" && d <= exp {
